@@ -2,6 +2,7 @@ package checks
 
 import (
 	"fmt"
+	"go/constant"
 	"go/token"
 	"go/types"
 	"sort"
@@ -582,6 +583,7 @@ func runC12(c *Ctx) {
 	}
 	c.timeoutRule()
 	c.timeoutCapture(onActive)
+	c.consumedOnlyIfCompleted("S.consumed")
 	R.Require("E6.predicate", 6, "")
 	R.Require("E3.field", 5, "")
 	R.Require("E3.command", 2, "")
@@ -730,4 +732,75 @@ func (c *Ctx) timeoutCapture(onActive *ssa.Function) {
 	if nGo == 0 {
 		R.Add("E5.timeout-capture", shortFn(onActive)+" / (no goroutine started)", c.P.RelPos(onActive.Pos()), report.Discharged, "no timer goroutine is started from the command path on this tree (see E5.timeout)")
 	}
+}
+
+// consumedOnlyIfCompleted (shared by C06 and C12): the writer skips the normal reply for a message when the response
+// matcher reports it as handled. That report must mean "an outstanding request was completed with this message": every
+// return of a constant true in the matcher is dominated by the call that delivers to a recorded reply channel. A path
+// that reports "handled" without completing anything - a body that does not parse, say - swallows a message that may
+// need an answer of its own (0x1003 is both a possible response and a message the platform acknowledges).
+func (c *Ctx) consumedOnlyIfCompleted(rule string) {
+	R := c.R
+	R.Rules[rule] = "the response matcher reports a message as handled (the writer then skips the normal reply) only on paths on which it completed an outstanding request with it: unmatched or unparseable traffic is still answered normally"
+	onResp := c.P.Method("service", "connection", "onActiveRespondEvent")
+	if onResp == nil {
+		R.Fatal("anchor connection.onActiveRespondEvent not found")
+		return
+	}
+	delivers := func(f *ssa.Function) bool {
+		for _, g := range c.familyOf(f) {
+			for _, b := range g.Blocks {
+				for _, ins := range b.Instrs {
+					if s, ok := ins.(*ssa.Send); ok {
+						if _, fld, okF := fieldLoad(s.Chan); okF && fld == "replyChan" {
+							return true
+						}
+					}
+				}
+			}
+		}
+		return false
+	}
+	var doneBlocks []*ssa.BasicBlock
+	for _, b := range onResp.Blocks {
+		for _, ins := range b.Instrs {
+			switch x := ins.(type) {
+			case *ssa.Call:
+				if sc := x.Call.StaticCallee(); sc != nil && c.P.IsRepoFunc(sc) && sc != onResp && delivers(sc) {
+					doneBlocks = append(doneBlocks, b)
+				}
+			case *ssa.Send:
+				if _, fld, okF := fieldLoad(x.Chan); okF && fld == "replyChan" {
+					doneBlocks = append(doneBlocks, b)
+				}
+			}
+		}
+	}
+	n := 0
+	for _, b := range onResp.Blocks {
+		ret, isR := b.Instrs[len(b.Instrs)-1].(*ssa.Return)
+		if !isR || len(ret.Results) != 1 {
+			continue
+		}
+		k, isK := ret.Results[0].(*ssa.Const)
+		if isK && k.Value != nil && k.Value.Kind() == constant.Bool && !constant.BoolVal(k.Value) {
+			continue // "not handled"
+		}
+		n++
+		ok := false
+		for _, db := range doneBlocks {
+			if db.Dominates(b) {
+				ok = true
+			}
+		}
+		st, d := report.Discharged, ""
+		if !ok {
+			st, d = report.Violated, "the matcher can report the message as handled at "+c.P.RelPos(ret.Pos())+" without having completed an outstanding request: the writer then skips the normal reply, so a message that needs an answer of its own (0x1003) is swallowed"
+		}
+		R.Add(rule, fmt.Sprintf("%s / return #%d reporting 'handled'", shortFn(onResp), n), c.P.RelPos(ret.Pos()), st, d)
+	}
+	if n == 0 {
+		R.Add(rule, shortFn(onResp)+" / (never reports 'handled')", c.P.RelPos(onResp.Pos()), report.Violated, "the matcher never reports a message as handled: responses are answered like ordinary traffic and completions are not consumed")
+	}
+	R.Require(rule, 1, "")
 }
